@@ -878,6 +878,14 @@ func (g *Gen) builtin(st *State, b *ssa.Builtin, c *ssa.CallCommon, rt types.Typ
 		g.assume(st, "(<= 0 "+n+")")
 		return IntV{n}
 	case "append":
+		// an owned scratch slice (see owned.go) cannot share its block with a slice read from anywhere else
+		if g.ownedOf(g.fn)[c.Args[0]] && !g.ownedOf(g.fn)[c.Args[1]] {
+			if src, ok := args[1].(SliceV); ok {
+				// (a nil / empty-capacity slice has no block to share; nothing is written in place then)
+				g.assume(st, "(or (<= "+args[0].(SliceV).Cap+" 0) (not (= "+args[0].(SliceV).Ref+" "+src.Ref+")))")
+				g.trustedUsed["ownership: a slice this function allocated and never handed out does not alias memory read from elsewhere (static escape check, owned.go)"] = true
+			}
+		}
 		return g.appendOp(st, args[0].(SliceV), args[1])
 	case "copy":
 		return g.copyOp(st, args[0].(SliceV), args[1])
@@ -935,6 +943,18 @@ func (g *Gen) elemScalar(t types.Type) bool {
 }
 
 // appendOp: exact Go semantics: in place when it fits, otherwise a fresh block.
+func (g *Gen) ownedOf(fn *ssa.Function) map[ssa.Value]bool {
+	if g.ownedCache == nil {
+		g.ownedCache = map[*ssa.Function]map[ssa.Value]bool{}
+	}
+	if m, ok := g.ownedCache[fn]; ok {
+		return m
+	}
+	m := ownedSliceValues(fn)
+	g.ownedCache[fn] = m
+	return m
+}
+
 func (g *Gen) appendOp(st *State, s SliceV, y Val) Val {
 	var k string
 	switch t := y.(type) {
